@@ -90,11 +90,14 @@ def emfFails (o : EmfObs) : List String :=
   (if o.fresh2 != 1 then ["episode2-listener-not-accepting-again"] else []) ++
   (if o.sh != "nil" then ["shutdown-after-episodes-" ++ o.sh] else [])
 
-/-- one stretch of descriptor exhaustion of a chosen length: accept fails with EMFILE `k` times in a row (a
-    `Listener` handed to `Serve` scripts the failures; everything else is the real code), `queued` clients connect
-    during the stretch, one more after it -/
+/-- one stretch of descriptor exhaustion: a `Listener` handed to `Serve` answers its first accepts from a script
+    (`k` failures: EMFILE / ENFILE, possibly followed by or mixed with other errors accept(2) may report at any time;
+    everything else is the real code), and is the real accept afterwards - descriptors are available again.
+    `queued` clients connect during the stretch, one more after it -/
 structure StretchObs where
   k : Nat := 0
+  /-- the script contains an out-of-descriptor error: the clause speaks about descriptor exhaustion only -/
+  exhausted : Bool := true
   /-- the process died (a panic in a library goroutine cannot be recovered) before the stretch was over -/
   crashed : Nat := 0
   queued : Nat := 0
@@ -102,9 +105,12 @@ structure StretchObs where
   fresh : Nat := 0
 deriving Repr
 
-/-- "accepting resumes once descriptors are available again", for a stretch of ANY length
-    (`C13_accept_resumes`, `C13_retry_index_in_table`, `C13_retry_resumes_after_any_stretch`) -/
+/-- "Under descriptor exhaustion accepting resumes once descriptors are available again", for a stretch of ANY
+    length and whatever accept reported on the way (`C13_accept_resumes`, `C13_retry_index_in_table`,
+    `C13_retry_resumes_after_any_stretch`, `C13_retry_resumes_after_any_script`, `C13_episode_never_stops_accepting`):
+    the clients that queued up meanwhile and a fresh one are served once accept works again -/
 def stretchFails (o : StretchObs) : List String :=
+  if !o.exhausted then [] else
   (if o.crashed != 0 then ["process-died-during-exhaustion-accepting-never-resumes"] else []) ++
   (if o.crashed == 0 && o.served != o.queued then ["queued-clients-not-served-after-exhaustion"] else []) ++
   (if o.crashed == 0 && o.fresh != 1 then ["listener-not-accepting-again-after-exhaustion"] else [])
